@@ -111,12 +111,20 @@ def swapNode (recreated : List (Nat × Node)) (p : Rep) : Rep :=
   | some n => (n, p.2)
   | none => p
 
-/-- `update_stale_nodes`: `all` is rewritten; if something in `all` was, `per_dc` is rebuilt from the new `all`
-(`entry(dc).or_default().push(..)` = the grouping loop of `from_raw_replicas`; commit 8fbd1bc — before it the
-old per-datacenter vectors were patched in place and a node re-created in another datacenter stayed in its old
-datacenter's list). -/
+/-- is this replica's `Node` object replaced? (`recreated_nodes.get(&node.host_id)` is some *other* object) -/
+def isStaleRep (recreated : List (Nat × Node)) (p : Rep) : Bool :=
+  match alGet p.1.hostId recreated with
+  | some n => n != p.1
+  | none => false
+
+/-- `update_stale_nodes`: stale objects in `all` are replaced (an object that already is the re-created one is
+left alone — the tablet may have been re-resolved against the new nodes earlier in the same maintenance pass;
+commit f6d680f, before it an `assert!` panicked there); if something was replaced, `per_dc` is rebuilt from the
+new `all` (`entry(dc).or_default().push(..)` = the grouping loop of `from_raw_replicas`; commit 8fbd1bc — before
+it the old per-datacenter vectors were patched in place and a node re-created in another datacenter stayed in
+its old datacenter's list). -/
 def updateStale (recreated : List (Nat × Node)) (t : Tablet) : Tablet :=
-  let anyUpdated := t.replicas.all.any (fun p => (alGet p.1.hostId recreated).isSome)
+  let anyUpdated := t.replicas.all.any (isStaleRep recreated)
   let all' := t.replicas.all.map (swapNode recreated)
   let perDc' := if anyUpdated then groupByDc all' else t.replicas.perDc
   { t with replicas := ⟨all', perDc'⟩ }
@@ -259,5 +267,91 @@ def rawTabletCheck (a b : Int) (reps : List (Option (Nat × Int))) :
   else match collectReplicas reps with
     | .ok l => .ok (tokenNew (a + 1), tokenNew b, l)
     | .error e => .error e
+
+/-! ### the payload cell `tuple<bigint, bigint, list<tuple<uuid, int>>>` (deserialisation, 66-108) -/
+
+def beNat : List UInt8 → Nat := fun bs => bs.foldl (fun acc b => acc * 256 + b.toNat) 0
+
+/-- big-endian two's complement -/
+def beInt (bs : List UInt8) : Int :=
+  let n := beNat bs
+  if n ≥ 2 ^ (8 * bs.length - 1) then (n : Int) - 2 ^ (8 * bs.length) else n
+
+/-- `types::read_int` -/
+def readInt (bs : List UInt8) : Option (Int × List UInt8) :=
+  if bs.length < 4 then none else some (beInt (bs.take 4), bs.drop 4)
+
+/-- `FrameSlice::read_cql_bytes` (`read_bytes_opt`): a negative length is a null. -/
+def readCqlBytes (bs : List UInt8) : Option (Option (List UInt8) × List UInt8) :=
+  match readInt bs with
+  | none => none
+  | some (len, rest) =>
+    if len < 0 then some (none, rest)
+    else if rest.length < len.toNat then none
+    else some (some (rest.take len.toNat), rest.drop len.toNat)
+
+/-- one field of a tuple: no bytes left = null (tuples shorter than declared) -/
+def tupleField (v : List UInt8) : Option (Option (List UInt8) × List UInt8) :=
+  if v.isEmpty then some (none, v) else readCqlBytes v
+
+/-- a fixed-width number / uuid: not null, exact length -/
+def fixedField (size : Nat) (cell : Option (List UInt8)) : Option (List UInt8) :=
+  match cell with
+  | none => none
+  | some b => if b.length = size then some b else none
+
+/-- `<(Uuid, i32)>::deserialize` on one list element -/
+def replicaElem (cell : Option (List UInt8)) : Option (Nat × Int) :=
+  match cell with
+  | none => none
+  | some v =>
+    match tupleField v with
+    | none => none
+    | some (c0, v1) =>
+      match fixedField 16 c0 with
+      | none => none
+      | some u =>
+        match tupleField v1 with
+        | none => none
+        | some (c1, _) =>
+          match fixedField 4 c1 with
+          | none => none
+          | some s => some (beNat u, beInt s)
+
+/-- the lazy `ListlikeIterator`: `count` items; the list ends at the first failing item (`none`). -/
+def replicaElems : Nat → Nat → List UInt8 → List (Option (Nat × Int))
+  | 0, _, _ => []
+  | _, 0, _ => []
+  | fuel + 1, count + 1, bs =>
+    match readCqlBytes bs with
+    | none => [none]
+    | some (cell, rest) =>
+      match replicaElem cell with
+      | none => [none]
+      | some r => some r :: replicaElems fuel count rest
+
+/-- `RawTablet::from_custom_payload` on the bytes stored under `tablets-routing-v1`. -/
+def parsePayload (bs : List UInt8) : Except PayloadErr (Int × Int × List (Nat × Nat)) :=
+  match tupleField bs with
+  | none => .error .deserialization
+  | some (c0, v1) =>
+    match fixedField 8 c0 with
+    | none => .error .deserialization
+    | some a =>
+      match tupleField v1 with
+      | none => .error .deserialization
+      | some (c1, v2) =>
+        match fixedField 8 c1 with
+        | none => .error .deserialization
+        | some b =>
+          match tupleField v2 with
+          | none => .error .deserialization
+          | some (none, _) => rawTabletCheck (beInt a) (beInt b) []
+          | some (some l, _) =>
+            match readInt l with
+            | none => .error .deserialization
+            | some (count, items) =>
+              if count < 0 then .error .deserialization
+              else rawTabletCheck (beInt a) (beInt b) (replicaElems (items.length + 1) count.toNat items)
 
 end ScyllaVerif.Tablets
